@@ -184,6 +184,19 @@ def run(pid, tier, seed):
         tot["tlc_states"] += vb["tlc_states"]
         tot["bad"] += summ.get("bad_runs", 0)
         samples = samples or summ.get("samples", [])[:3]
+    # V2: join / leave / monitor calls free running (real threads, no scheduler): reaches windows inside the index
+    # helpers, each of which is one entry region for the hooks; call / return lines and the final snapshot only
+    wf = vlib.workdir("pg_%s_free" % pid)
+    tracef = os.path.join(wf, "batch_free.ndjson")
+    summf = vlib.harness(["pg-free", "--out", tracef, "--tier", tier, "--seed", seed])
+    vbf = vlib.validate_batch("Trace_Pg", "Trace_Pg.cfg", tracef, "pg_%s_free" % pid, start_lenient=True)
+    log("[V] pg-free: %d runs, %d events: %d accepted on their observations, %d rejected, %d not validated" % (
+        summf["runs"], vbf["events"], vbf["lenient_accepted"], len(vbf["violations"]), vbf["unvalidated"]))
+    for viol in vbf["violations"]:
+        meta, ev, sig = _signature(viol)
+        v.violation("free-running " + sig, {"family": "pg-free", "meta": meta, "trace": [json.loads(x) for x in viol["run"]],
+                                             "first_unexplained": viol.get("lenient_event_index"), "event": ev})
+    tot["rej"] += len(vbf["violations"])
     for name, n in devs.items():
         if DEVIATIONS.get(name) == pid:
             v.deviation(name, n)
@@ -193,7 +206,10 @@ def run(pid, tier, seed):
         "traces_validated_against_impl": tot["strict"] + tot["len"] + tot["div"],
         "lenient_only_accepted_runs": tot["len"],
         "samples": samples,
-        "evaluations": tot["runs"],
+        "evaluations": tot["runs"] + summf["runs"],
+        "free_running_runs": summf["runs"],
+        "free_running_accepted": vbf["lenient_accepted"],
+        "free_running_unvalidated": vbf["unvalidated"],
         "distinct_nontrivial": tot["nontrivial"],
         "rule": "one evaluation = one schedule of 3-4 threads x <= 2 public pg calls (join/leave/monitor/monitor_scope/"
                 "demonitor*/the exit sequence/the six queries) on 3 detached cells (one with a remote-looking id), "
@@ -227,6 +243,18 @@ def replay(pid, path):
     w = vlib.workdir("replay_" + pid)
     out = os.path.join(w, "replay.ndjson")
     meta = rp["meta"]
+    if rp.get("family") == "pg-free" or meta.get("family") == "pg-free":
+        # a free-running run has no schedule to re-execute: the recorded observations are validated again
+        with open(out, "w") as f:
+            for e in rp["trace"]:
+                f.write(json.dumps(e, separators=(",", ":")) + "\n")
+        vb = vlib.validate_batch("Trace_Pg", "Trace_Pg.cfg", out, "replay_" + pid, start_lenient=True)
+        if vb["violations"]:
+            log("recorded free-running trace is rejected by the specification")
+            log("VIOLATION property=%s replay=%s" % (pid, path))
+            return 1
+        log("recorded free-running trace accepted")
+        return 0
     summ = vlib.harness(["pg-replay", "--shape-json", json.dumps(meta["shape_json"]), "--sched", json.dumps(meta["sched"]), "--out", out])
     if summ.get("runs") != 1:
         raise vlib.ToolError("cannot replay: %s" % summ)
